@@ -33,8 +33,20 @@ def run_view(prog, rep):
         else:
             over = assign.get(('cmp', '<', ('W_count',), ('cnt',)))
             want = want2 = ('W_offset',)
+        if over is None and hasoff[0]:
+            # accepted equivalent idiom on unsigned extents: off > count || cnt > count - off
+            guard = assign.get(('cmp', '<', ('W_count',), ('off',)))
+            room = assign.get(('cmp', '<', ('bin', '-', ('W_count',), ('off',)), ('cnt',)))
+            if guard is True:
+                over = True
+            elif guard is False and room is not None:
+                over = room
+            elif room is not None:
+                probs.append('the request is compared with count - off although off <= count is not established on this path: the unsigned '
+                             'subtraction wraps for a request that starts behind the window, which is then accepted')
+                continue
         if over is None:
-            probs.append('request (%s) is not compared with the window extent using "request > count"' % ('cnt + off' if hasoff[0] else 'cnt'))
+            probs.append('request (%s) is not compared with the window extent (accepted idioms: cnt + off > count; off > count || cnt > count - off)' % ('cnt + off' if hasoff[0] else 'cnt'))
             continue
         if over:
             if not (out[0] == 'throw' and 'OutOfBounds' in str(out[1])):
